@@ -140,6 +140,9 @@ func (f *AdjustArray) Call(s *slip.Scope, args slip.List, depth int) (result sli
 			}
 		}
 	}
+	if len(dims) == 1 && dims[0] < fillPtr {
+		slip.ErrorPanic(s, depth, "the fill pointer %d is beyond the new length %d", fillPtr, dims[0])
+	}
 	switch ta := args[0].(type) {
 	case *slip.Array:
 		result = ta.Adjust(dims, elementType, initElement, initContents)
